@@ -620,6 +620,33 @@ func testedNonNil(v ssa.Value, b *ssa.BasicBlock) bool {
 	if v.Referrers() == nil {
 		return false
 	}
+	// the value may have been spilled to a local (named result, captured variable) and the test
+	// made on a reload of it in the same block as the store
+	for _, ref := range *v.Referrers() {
+		st, ok := ref.(*ssa.Store)
+		if !ok || st.Val != v {
+			continue
+		}
+		blk := st.Block()
+		seen := false
+		for _, in := range blk.Instrs {
+			if in == ssa.Instruction(st) {
+				seen = true
+				continue
+			}
+			if !seen {
+				continue
+			}
+			if s2, ok := in.(*ssa.Store); ok && s2.Addr == st.Addr {
+				break
+			}
+			if ld, ok := in.(*ssa.UnOp); ok && ld.Op == token.MUL && ld.X == st.Addr {
+				if testedNonNil(ld, b) {
+					return true
+				}
+			}
+		}
+	}
 	for _, ref := range *v.Referrers() {
 		bo, ok := ref.(*ssa.BinOp)
 		if !ok || (bo.Op != token.NEQ && bo.Op != token.EQL) {
